@@ -350,19 +350,39 @@ def r_arg_checks(rule, root=None):
         rule.ok("check_bulk_arguments: Err iff fewer slices than variables", file=VAR, line=fn["ln"])
     else:
         rule.bad("bulk-args|count", "check_bulk_arguments must return BadVarSlice exactly when vars.len() < self.len()", A.where(fn))
-    # no success before the count was checked: every `Ok(..)` the check can return lies on a path where
-    # `vars.len() < self.len()` has been refused (an empty list of slices is short for any tape with variables)
+    # no success before the count was checked: walking the body's statements in order, an `Ok(..)` may only appear in
+    # the else-branch of the count test or after a count test whose failure branch returns (an empty list of slices is
+    # short for any tape with variables)
+    def _is_short_test(c_, f_):
+        """+1: the condition says the list is short, -1: that it suffices, 0: something else"""
+        t_ = A.canon_int_text(_resolve_lets(f_, str(A.ftxt(A.strip(c_)))))
+        if t_ in ("vars.len()<self.len()", "(vars.len()<self.len())"):
+            return 1
+        if t_ in ("self.len()<=vars.len()", "(self.len()<=vars.len())", "!(vars.len()<self.len())"):
+            return -1
+        return 0
+
+    def _has_ok(n_):
+        return any((A.path_segs(c_["func"]) or []) == ["Ok"] for c_ in A.find(n_, "Call"))
+
     for f_, lab_ in ((A.find_fn(VAR, "check_tracing_arguments", self_ty="VarMap", root=root), "tracing"), (fn, "bulk")):
+        checked = False
         early = None
-        for v_, cs_ in A.result_cases(f_["body"]):
-            if not str(A.ftxt(v_)).startswith("Ok("):
+        for st in A.stmts_of(f_["body"]):
+            e_ = A.strip(st.get("e", st)) if st.get("k") == "ExprStmt" else st
+            pol = _is_short_test(e_["cond"], f_) if isinstance(e_, dict) and e_.get("k") == "If" else 0
+            if pol:
+                short_branch = e_["then"] if pol > 0 else e_.get("else")
+                if short_branch is not None and _has_ok(short_branch):
+                    early = short_branch
+                    break
+                checked = True  # what follows (or the else branch) runs only when the count sufficed / the failure was returned
                 continue
-            cs2 = [A.canon_int_text(_resolve_lets(f_, str(x))) for x in cs_]
-            if "(self.len()<=vars.len())" not in cs2 and "!(vars.len()<self.len())" not in [str(x).replace(" ", "") for x in cs_]:
-                early = (v_, cs_)
+            if not checked and _has_ok(st):
+                early = st
                 break
-        if early:
-            rule.bad("%s-args|early-ok" % lab_, "check_%s_arguments answers `Ok(())` under `%s`, before the number of supplied values was compared with the tape's variables: that input is then indexed by the evaluators" % (lab_, " && ".join(str(x) for x in early[1]) or "no condition"), A.where(f_, early[0] if isinstance(early[0], dict) and early[0].get("ln") else f_))
+        if early is not None:
+            rule.bad("%s-args|early-ok" % lab_, "check_%s_arguments can answer `Ok(())` before the number of supplied values was compared with the tape's variables (`%s`): that input is then indexed by the evaluators" % (lab_, A.unparse(early)[:70].replace("\n", " ")), A.where(f_, early if isinstance(early, dict) and early.get("ln") else f_))
         else:
             rule.ok("check_%s_arguments: every Ok lies behind the count check" % lab_, file=VAR, line=f_["ln"])
     t = A.ftxt(fn["body"])
